@@ -318,8 +318,8 @@ theorem lineLength_boxRow (cw : Char → Nat) (a b z : Char) (ha : cw a = 1) (hb
   rw [lineLength_seg, cellLen_append, cellLen_append, cellLen_rep cw n b hb]
   simp [cellLen, ha, hz]; omega
 
-/-- the title part of the top border, when nothing is stripped: exactly the aligned title.  Today's
-`rstrip_end` needs the text to have no more characters than cells available; the repaired one never
+/-- the title part of the top border, when nothing is stripped: exactly the aligned title.  The as-found
+`rstrip_end` (before fix f5f2be9) needs the text to have no more characters than cells available; the repaired one never
 strips a text that fits. -/
 theorem textConsoleSimple_of_fits (cw : Char → Nat) (v : Variant) (plain : List Char) (w : Int) (ts : List (Segment σ))
     (h : textConsoleSimple cw v plain [] w = some ts) (hlen : v.rstripCountsChars = true → (plain.length : Int) ≤ w) :
